@@ -29,10 +29,10 @@ def mk_value(I, d, name):
     return enum_variant(I, "RecordValue", "Single", [z3.fpBVToFP(b, z3.Float32())]), b, z3.BoolVal(True)
 
 
-def pcw_scenario(proto, npoints, nan_free=True):
+def pcw_scenario(proto, npoints, nan_free=True, fault=False):
     def scen(I):
         init_interp(I)
-        s = mk_abs_writer(I)
+        s = mk_abs_writer(I, fault_at=fresh("fault_at") if fault else None)
         I.last_state = s
         # sections start 4-aligned: the file header is 48 bytes and every section operation leaves the cursor 4-aligned
         # (decided for Blob::write and for this function's own end state)
@@ -478,3 +478,17 @@ def reject_scenarios(tier="quick"):
     out.append(Scenario("add_point with one value too few", reject_scenario(p1, "arity"), reject_claims, max_paths=200))
     out.append(Scenario("add_point with a value of the wrong kind", reject_scenario(p1, "type"), reject_claims, max_paths=200))
     return out
+
+
+def pcw_fault_claims(s, I):
+    """C16: a page-layer error at any operation during new / add_point / finalize surfaces as Err of the call in progress"""
+    w = s.holder["w"]
+    if any(e[0] == "fault" for e in w.log):
+        results = [s.new] + list(s.steps) + ([s.fin] if getattr(s, "fin", None) is not None and s.new.vname == "Ok" else [])
+        return [("a page-layer error surfaces as Err of the writer call in progress", z3.BoolVal(any(r.vname == "Err" for r in results)))]
+    return pcw_claims(s, I)[:2]
+
+
+def fault_scenarios(tier="quick"):
+    proto = PROTOS["xyz int11/double/const"]
+    return [Scenario("PointCloudWriter new; add_point; finalize with one page-layer error at any operation", pcw_scenario(proto, 1, fault=True), pcw_fault_claims, max_paths=2000, time_budget=900)]
